@@ -461,9 +461,84 @@ def pattern_of(hist):
     return "plain"
 
 
+def dedupe(xs):
+    out = []
+    for x in xs:
+        if x not in out:
+            out.append(x)
+    return out
+
+
+def is_subseq(xs, ys):
+    it = iter(ys)
+    return all(any(x == y for y in it) for x in xs)
+
+
+def classify(iv, oracle):
+    """how an answer list differs from the oracle"""
+    if iv is None:
+        return "no-answer"
+    if len(iv) > len(oracle) and dedupe(iv) == oracle:
+        return "duplicate"
+    if len(iv) < len(oracle) and is_subseq(iv, oracle):
+        return "dropped"
+    if sorted(iv) == sorted(oracle):
+        return "order"
+    return "different"
+
+
+OPRE = re.compile(r"(assertz|asserta|retract)\(")
+
+
+def failed_update(d, impl):
+    """first line before the observation (use_module, consult, assert/retract) that did not succeed:
+    (line id, text, result) or None.  A panic discards the machine, so nothing after it is comparable."""
+    for l in d["impl"]:
+        f = l.split("\t")
+        lid = f[1]
+        if lid == d["qid"]:
+            return None
+        r = impl.get(lid)
+        if lid.endswith("_u"):
+            ok = r is not None and r.startswith("true")
+        elif f[0] == "L":
+            ok = r == "loaded"
+        elif re.search(r"_o\d+$", lid):
+            ok = r is not None and (r.startswith("{") or r.startswith("true"))
+        else:
+            ok = r is not None and not r.startswith("panic")
+        if not ok:
+            return lid, f[-1], r
+    return None
+
+
 def judge(obs_list, impl, model, findings, stats, verbose=False):
+    reported_updates = set()
     for d in obs_list:
         qid = d["qid"]
+        fu = failed_update(d, impl)
+        if fu is not None:
+            lid, text, r = fu
+            stats["skipped_after_failed_update"] = stats.get("skipped_after_failed_update", 0) + 1
+            if lid in reported_updates or _incomplete(r):
+                continue
+            reported_updates.add(lid)
+            m = OPRE.search(text)
+            kind = "panic" if (r or "").startswith("panic") else "error"
+            sig = {"family": "static" if d["static"] else "dynamic", "what": kind + "-in-update",
+                   "op": m.group(1) if m else "load", "retract": "1" if "r" in d["hist"] else "0",
+                   "pattern": pattern_of(d["hist"]) if not d["static"] else "consult"}
+            payload = {k: d[k] for k in ("id", "impl", "model", "qid", "query", "oracle", "static", "hist",
+                                         "klass", "computed", "via", "call_terms", "live")}
+            payload["failed_line"] = lid
+            payload["impl_answer"] = r
+            findings.append(core.Finding(
+                "violation", sig,
+                "update %s answered %s (every update of the history must succeed; after a panic the "
+                "machine is lost)" % (text, r), payload))
+            if verbose:
+                print("replay: update line %s %s -> %s" % (lid, text, r))
+            continue
         iv = parse_impl(impl.get(qid))
         ms = parse_model(model.get(qid))
         oracle = d["oracle"]
@@ -487,15 +562,14 @@ def judge(obs_list, impl, model, findings, stats, verbose=False):
             continue
         fam = "static" if d["static"] else "dynamic"
         sig = {"family": fam, "call": d["klass"], "computed": "1" if d["computed"] else "0",
-               "via": d["via"], "pattern": pattern_of(d["hist"]) if not d["static"] else "consult"}
+               "via": d["via"], "retract": "1" if "r" in d["hist"] else "0",
+               "pattern": pattern_of(d["hist"]) if not d["static"] else "consult"}
         payload = {k: d[k] for k in ("id", "impl", "model", "qid", "query", "oracle", "static", "hist",
                                      "klass", "computed", "via", "call_terms", "live")}
         payload["impl_answer"] = impl.get(qid)
         payload["model_select"] = model.get(qid)
         if iv != oracle:
-            what = "dropped" if iv is not None and set(iv) < set(oracle) else (
-                "order/duplicates" if iv is not None and sorted(set(iv)) == sorted(oracle) else "different")
-            sig["what"] = what if iv is not None else "no-answer"
+            sig["what"] = classify(iv, oracle)
             findings.append(core.Finding(
                 "violation", sig,
                 "implementation answered %s for %s; clauses whose head unifies, in textual order: %s" % (
